@@ -190,7 +190,55 @@ pub fn main() -> i32 {
                 let total: u64 = all.iter().map(|x| x.count).sum();
                 let last = all.iter().filter(|x| x.processCmdLine.ends_with(&format!("--run-id {}", n - 1))).map(|x| x.count).sum::<u64>();
                 let first = all.iter().filter(|x| x.processCmdLine.ends_with("--run-id 0")).map(|x| x.count).sum::<u64>();
-                json!({"n": n, "acked": acked, "entries": all.len(), "total": total, "firstCaller": first, "lastCaller": last})
+                // the same through the PUBLISHED document: the real ProxyAgentStatusTask over this actor writes status.json
+                // into a fresh directory; it is read once a publication made after the last add is on disk
+                let dir = std::env::temp_dir().join(format!("verif_many_{}_{}", std::process::id(), n));
+                let _ = std::fs::remove_dir_all(&dir);
+                std::fs::create_dir_all(&dir).unwrap();
+                let token = tokio_util::sync::CancellationToken::new();
+                let task = crate::proxy_agent_status::ProxyAgentStatusTask::new(
+                    std::time::Duration::from_millis(50),
+                    dir.clone(),
+                    token.clone(),
+                    crate::shared_state::key_keeper_wrapper::KeyKeeperSharedState::start_new(),
+                    st.clone(),
+                );
+                let h = tokio::spawn(async move { task.start().await });
+                let file = dir.join("status.json");
+                let (mut f_entries, mut f_total, mut f_first, mut f_last) = (-1i64, -1i64, -1i64, -1i64);
+                let t0 = std::time::Instant::now();
+                let mut seen_mtime = None;
+                while t0.elapsed() < std::time::Duration::from_secs(20) {
+                    tokio::time::sleep(std::time::Duration::from_millis(60)).await;
+                    let mt = std::fs::metadata(&file).and_then(|m| m.modified()).ok();
+                    if mt.is_none() {
+                        continue;
+                    }
+                    if seen_mtime.is_none() {
+                        seen_mtime = mt; // first publication seen; take the NEXT one (written wholly after the adds)
+                        continue;
+                    }
+                    if mt == seen_mtime {
+                        continue;
+                    }
+                    if let Ok(text) = std::fs::read_to_string(&file) {
+                        if let Ok(v) = serde_json::from_str::<Value>(&text) {
+                            let arr = v["failedAuthenticateSummary"].as_array().cloned().unwrap_or_default();
+                            let cnt = |x: &Value| x["count"].as_i64().unwrap_or(0);
+                            let cmdl = |x: &Value| x["processCmdLine"].as_str().unwrap_or("").to_string();
+                            f_entries = arr.len() as i64;
+                            f_total = arr.iter().map(cnt).sum();
+                            f_first = arr.iter().filter(|x| cmdl(x).ends_with("--run-id 0")).map(cnt).sum();
+                            f_last = arr.iter().filter(|x| cmdl(x).ends_with(&format!("--run-id {}", n - 1))).map(cnt).sum();
+                            break;
+                        }
+                    }
+                }
+                token.cancel();
+                let _ = h.await;
+                let _ = std::fs::remove_dir_all(&dir);
+                json!({"n": n, "acked": acked, "entries": all.len(), "total": total, "firstCaller": first, "lastCaller": last,
+                    "fileEntries": f_entries, "fileTotal": f_total, "fileFirstCaller": f_first, "fileLastCaller": f_last})
             }),
             "status_burst" => rt.block_on(async {
                 let n = cmd["n"].as_u64().unwrap_or(250);
